@@ -54,6 +54,10 @@ pub struct Part {
     pub samples: Vec<Value>,
     pub counts: std::collections::BTreeMap<String, u64>,
     pub notes: Vec<String>,
+    /// keys of recorded known findings that this part ran into (a part written against a Report
+    /// filters them itself; the collecting build has to hear about them to print KNOWN-FINDING)
+    #[serde(default)]
+    pub known_hits: Vec<String>,
 }
 
 impl Part {
@@ -74,6 +78,7 @@ impl Part {
             }
         }
         p.violations = rep.violations.iter().take(50).cloned().collect();
+        p.known_hits = rep.known.iter().zip(&rep.known_hit).filter(|(_, h)| **h).map(|(k, _)| k.key.clone()).collect();
         p.machinery = rep.machinery.clone();
         p.samples = rep.samples.iter().take(2).cloned().collect();
         if rep.coverage.get("exhaustive") == Some(&serde_json::json!(false)) {
@@ -105,6 +110,10 @@ impl Part {
         }
         for m in &self.machinery {
             rep.machinery(format!("[{}] {}", self.variant, m));
+        }
+        for k in &self.known_hits {
+            // (matches the key in the collecting report's list: counted there as a known finding)
+            rep.fail(&format!("[{}] {}", self.variant, k), serde_json::Value::Null);
         }
         for s in &self.samples {
             rep.sample(json!({"variant": self.variant, "case": s}));
